@@ -1470,7 +1470,9 @@ class _minmax(object):
                     else:
                         cnst = _vecmin(cnst,f)
 
-                elif type(f) is variable or type(f) is _function:
+                elif type(f) is variable or (type(f) is _function and
+                    ((f._isconvex() and self._ismax) or
+                    (f._isconcave() and not self._ismax))):
                     self._flist += [+f]
 
                 else:
